@@ -34,7 +34,8 @@ type identMutation struct {
 }
 
 type identState struct {
-	RefName string
+	RefName  string
+	Recommit bool
 }
 
 func anyV(v int) bool   { return true }
@@ -100,6 +101,10 @@ var identCatalogue = []identMutation{
 	}},
 	{Name: "ident-version-entry-is-tree", Verdict: "reject", Applies: anyV, Apply: func(chain []*identVersion, v int, st *identState) {
 		chain[v].Entries = []model.Entry{{Name: "version", Kind: "tree", Sub: []model.Entry{{Name: "x", Kind: "empty"}}}}
+	}},
+	{Name: "ident-recommitted-same-content", Verdict: "reject-if-local", Applies: firstV, Apply: func(chain []*identVersion, v int, st *identState) {
+		// the same version blobs in other commits: a history that shares no commit with the local one
+		st.Recommit = true
 	}},
 	{Name: "ident-ref-id-mismatch", Verdict: "reject", Applies: firstV, Apply: func(chain []*identVersion, v int, st *identState) {
 		st.RefName = strings.Repeat("cd", 32)
@@ -230,13 +235,13 @@ func (e *Engine) identCase(p *sim.Plan, st *sim.Step, res *sim.RunResult, keep b
 		if k < 0 {
 			situation = "absent"
 		} else {
-			head, err := storeChain(cw.adv, valid, k)
+			head, err := storeChain(cw.pub, valid, k)
 			if err != nil {
 				res.HarnessErr = "store valid chain: " + err.Error()
 				return nil, "skipped"
 			}
-			_ = cw.adv.UpdateRef("refs/identities/"+id, head)
-			outs, err := cw.victimPull()
+			_ = cw.pub.UpdateRef("refs/identities/"+id, head)
+			outs, err := cw.victimPull("hub0")
 			if err != nil {
 				res.HarnessErr = fmt.Sprintf("victim cannot pull the valid identity: %v", err)
 				return nil, "skipped"
@@ -258,7 +263,11 @@ func (e *Engine) identCase(p *sim.Plan, st *sim.Step, res *sim.RunResult, keep b
 		}
 	}
 	cw.w.Act(nil)
-	head, err := storeChain(cw.adv, hostile, 2)
+	if state.Recommit {
+		cw.w.IdleWall = 1_700_000_777
+	}
+	head, err := storeChain(cw.adv, hostile, len(hostile)-1)
+	cw.w.IdleWall = 1_700_000_000
 	if err != nil {
 		return nil, "skipped"
 	}
@@ -267,7 +276,7 @@ func (e *Engine) identCase(p *sim.Plan, st *sim.Step, res *sim.RunResult, keep b
 	}
 	preRefs, _ := localState(cw.victim.Raw)
 	preChain := identChainOf(cw.victim.Raw, refName)
-	outs, pullErr := cw.victimPull()
+	outs, pullErr := cw.victimPull("hub1")
 	postRefs, _ := localState(cw.victim.Raw)
 	postChain := identChainOf(cw.victim.Raw, refName)
 	panics := verifrt.TakePanics()
@@ -291,7 +300,18 @@ func (e *Engine) identCase(p *sim.Plan, st *sim.Step, res *sim.RunResult, keep b
 			add("local-ref-changed", "unrelated local ref %s moved", ref)
 		}
 	}
-	switch m.Verdict {
+	verdict := m.Verdict
+	if verdict == "reject-if-local" {
+		verdict = "reject"
+		if situation == "absent" {
+			verdict = "accept"
+		} else if situation == "equal" || situation == "ahead" {
+			// identical content, nothing new: reporting "nothing" without touching the local
+			// identity is as good as refusing
+			verdict = "either"
+		}
+	}
+	switch verdict {
 	case "reject":
 		if !refused && len(panics) == 0 {
 			kind := "hostile-accepted"
